@@ -37,6 +37,32 @@ def sub_intervals(d):
     return [(a, b) for a in range(d[0], d[1] + 1) for b in range(a, d[1] + 1)]
 
 
+def check_one(alg, ps, b, cap=5000):
+    """the trigger-sufficiency statement on one call of the real code; returns a description of the failure or None"""
+    b = [tuple(d) for d in b]
+    n = len(b)
+    masks = real_masks(alg, n, ps)
+    st, out = nv.impl_prop(alg, ps, b)
+    if st in (0, "oob", "hang"):
+        return None
+    out = [tuple(d) for d in out]
+    count = 0
+    for sb in itertools.product(*[sub_intervals(d) for d in out]):
+        count += 1
+        if count > cap:
+            break
+        if any(masks[k] & ev_of(b[k], sb[k]) for k in range(n)):
+            continue
+        if alg == "no_sub_cycle" and not all(d[0] == d[1] for d in sb):
+            continue
+        st2, out2 = nv.impl_prop(alg, ps, list(sb))
+        if st2 in (0, "oob", "hang"):
+            return f"masks {masks}: sub-box {list(sb)} of the result {out} is reached by unwatched events only, yet re-execution fails ({st2})"
+        if alg != "no_sub_cycle" and [tuple(d) for d in out2] != list(sb):
+            return f"masks {masks}: sub-box {list(sb)} of the result {out} is reached by unwatched events only, yet re-execution prunes to {out2}"
+    return None
+
+
 def sweep(ctx, report):
     rng = random.Random(ctx["seed"] + 808)
     per_alg = 80 if ctx["tier"] == "quick" else 1500
